@@ -119,6 +119,21 @@ Theorem C13_templates_deterministic :
 Proof. exact templates_order_independent. Qed.
 Print Assumptions C13_templates_deterministic.
 
+(** Purity. In the model the render context (configuration, images, environment, Package metadata)
+    is a value handed to the execution oracle, and a render returns the file map and nothing else:
+    the model's render IS a function of (context, files), so the same context and any enumeration
+    of the same files give the same result however often it is rendered, and no render can change
+    what the next one or the CEL filter stage sees. The Go code receives the context as maps it could
+    write to; that it leaves them alone is not a theorem about the model but what the `ctx_unchanged`
+    clause of C13Corr.monitor tests on the implementation (one context object is handed to all
+    repeated renders of a package and its digest compared before and after). *)
+Theorem C13_render_pure :
+  forall (C : Type) is_template strip (exec : C -> N -> filelist -> option N) context fs fs',
+    Permutation fs fs' -> NoDup (map fst fs) ->
+    render_stage is_template strip exec context fs = render_stage is_template strip exec context fs'.
+Proof. exact @render_stage_pure. Qed.
+Print Assumptions C13_render_pure.
+
 (** Exactly the packaged files named like templates are executed, each once; a path that only
     exists because a template wrote it is never executed, however it is named. *)
 Theorem C13_templates_executed :
@@ -201,6 +216,6 @@ Print Assumptions C13_tmodel_enum_invariant.
 (** The run-time monitor used on the implementation's output accepts every output of the model. *)
 Theorem C13_monitor_sound :
   forall phases mname pname fs expected, NoDup phases ->
-    monitor ((phases, mname, pname, fs), (true, model (phases, mname, pname, fs)), expected) = true.
+    monitor ((phases, mname, pname, fs), (true, true, model (phases, mname, pname, fs)), expected) = true.
 Proof. exact monitor_sound. Qed.
 Print Assumptions C13_monitor_sound.
